@@ -1,7 +1,7 @@
 (* C05  Access modes obey one consistent algebra in every representation.
    Theorems only; each is closed by [exact] of a lemma of Pure/AcsProofs.v. *)
 From Coq Require Import NArith List Bool.
-From Tinode Require Import Base.Util Pure.Acs Pure.AcsProofs.
+From Tinode Require Import Base.Util Pure.Acs Pure.AcsProofs Sys.AcsNotify Sys.AcsNotifyProofs.
 Import ListNotations.
 Open Scope N_scope.
 
@@ -84,3 +84,80 @@ Theorem c05_unrepaired_refuted :
   exists s m, parse_acs_unrepaired s = Some m /\ forallb known_letter s = false.
 Proof. exact parse_unrepaired_refuted. Qed.
 Print Assumptions c05_unrepaired_refuted.
+
+(* ------------------------------------------------------------------ *)
+(* LAYER 2: the change notifications of a topic (Sys/AcsNotify.v: notifySubChange's
+   acs parameters and recipients, updateAcsFromPresMsg, client sessions) *)
+
+(* the difference put into a notification, applied to the old modes, yields the new modes and
+   is never rejected: every (want, given) pair a topic can hold before and after, i.e. all
+   sets, Unset (no subscription) and Invalid; [nmodes] reads Unset/Invalid as no permission *)
+Theorem c05_notification_yields_new : forall ow og nw ng,
+  In ow mode_domain -> In og mode_domain -> In nw mode_domain -> In ng mode_domain ->
+  follow_opt (nmodes (ow, og)) (notify_params ow og nw ng) = Some (nmodes (nw, ng)).
+Proof. exact follow_opt_notify. Qed.
+Print Assumptions c05_notification_yields_new.
+
+(* ... also when presParams.packAcs drops an all-empty payload *)
+Theorem c05_client_follows_notification : forall ow og nw ng,
+  In ow mode_domain -> In og mode_domain -> In nw mode_domain -> In ng mode_domain ->
+  follow (nmodes (ow, og)) (pack_acs (notify_params ow og nw ng)) = nmodes (nw, ng).
+Proof. exact follow_notify. Qed.
+Print Assumptions c05_client_follows_notification.
+
+(* proxyMasterResponse/updateAcsFromPresMsg: the entry of the notified user becomes the new
+   modes, every other entry is untouched *)
+Theorem c05_proxy_applies_notification : forall t target ow og nw ng,
+  target <> 0 ->
+  In ow mode_domain -> In og mode_domain -> In nw mode_domain -> In ng mode_domain ->
+  tget t target = nmodes (ow, og) ->
+  forall u, tget (proxy_pres t target (pack_acs (notify_params ow og nw ng))) u =
+            if u =? target then nmodes (nw, ng) else tget t u.
+Proof. exact proxy_pres_notify. Qed.
+Print Assumptions c05_proxy_applies_notification.
+
+(* who is told of a change that is not an unsubscribe: exactly the target's sessions attached
+   to the topic / to 'me' only, except the requesting one *)
+Theorem c05_target_sessions_told : forall ss target skip sid, NoDup (map fst ss) ->
+  mem sid (direct_rcpt ss target skip false) =
+    match lk sid ss with Some (u, it) => it && (u =? target) && negb (sid =? skip) | None => false end /\
+  mem sid (me_rcpt ss target skip false) =
+    match lk sid ss with Some (u, it) => negb it && (u =? target) && negb (sid =? skip) | None => false end.
+Proof. intros ss target skip sid H. split; [exact (direct_rcpt_spec ss target skip sid H)|exact (me_rcpt_spec ss target skip sid H)]. Qed.
+Print Assumptions c05_target_sessions_told.
+
+(* every party that tracks permissions from change notifications holds exactly what the
+   authoritative topic holds: for EVERY history of attach / detach / permission change
+   (any users, any sessions, any sequence of (want, given) pairs, unsubscribes included)
+   from any initial table, and after EVERY step k of it:
+   - each tracking session (attached to the topic, or to the user's 'me' only; the requester
+     of a change reads the full modes from its {ctrl}) holds the modes of its user,
+   - the proxy's table holds the modes of every user. *)
+Theorem c05_trackers_hold_authoritative : forall a h k,
+  tbl_ok a -> wf_run (ninit a) h ->
+  let s := nrun (ninit a) (firstn k h) in
+  (forall sid u it, lk sid (sess s) = Some (u, it) -> lk sid (fol s) = Some (nmodes (aget (auth s) u))) /\
+  (forall u, tget (prox s) u = nmodes (aget (auth s) u)).
+Proof. exact trackers_hold_authoritative. Qed.
+Print Assumptions c05_trackers_hold_authoritative.
+
+(* non-vacuity: the member mutes the topic (want JRWPS -> JRWS) from session 10, then the owner
+   (session 20) takes P from the member's given; sessions 11 (in the topic) and 12 (on 'me') of the
+   member and the proxy all end with JRWS/JRWS *)
+Definition c05_ex_hist : list nop :=
+  [NAttach 10 2 true; NAttach 11 2 true; NAttach 12 2 false; NAttach 20 1 true;
+   NChange 10 2 39 47; NChange 20 2 39 39].
+Example c05_ex_hist_wf : tbl_ok [(1, (255, 255)); (2, (47, 47))] /\ wf_run (ninit [(1, (255, 255)); (2, (47, 47))]) c05_ex_hist.
+Proof.
+  split.
+  - intros u m. cbn [lk]. destruct (u =? 1); [intros X; inversion X; subst; split; apply small_in_domain; reflexivity|].
+    destruct (u =? 2); [intros X; inversion X; subst; split; apply small_in_domain; reflexivity|discriminate].
+  - cbn. repeat split; try discriminate; left; split; reflexivity.
+Qed.
+Example c05_ex_hist_result :
+  let s := nrun (ninit [(1, (255, 255)); (2, (47, 47))]) c05_ex_hist in
+  (lk 10 (fol s), lk 11 (fol s), lk 12 (fol s), tget (prox s) 2) = (Some (39, 39), Some (39, 39), Some (39, 39), (39, 39)).
+Proof. vm_compute. reflexivity. Qed.
+(* the notification of the second change carries no want part and "-P" for given *)
+Example c05_ex_params : notify_params 39 47 39 39 = ([], [cMinus; cP]).
+Proof. reflexivity. Qed.
